@@ -109,7 +109,7 @@ PROPS["C04"] = {
 
 
 # properties whose check is not green yet are not claimed in MANIFEST.json
-NOT_YET = ["C03", "C06", "C09", "C10", "C11", "C13", "C14", "C16"]
+NOT_YET = ["C03", "C06", "C09", "C13", "C14", "C16"]
 
 
 def select(pid, tier, seed):
